@@ -1,8 +1,13 @@
-"""Re-run every check on every stored seed and record the current catch matrix in each meta.json (development helper)."""
-import glob, json, os, shutil, subprocess, tempfile
-for sd in sorted(glob.glob('/verif/seeded/*')):
+"""Re-run every check on every stored seed / refactoring and record the current matrix in each meta.json
+(development helper; 12 variants at a time, evidence redirected to the scratch copy)."""
+import glob, json, os, shutil, subprocess, sys, tempfile
+from concurrent.futures import ThreadPoolExecutor
+
+
+def one(sd):
     meta = json.load(open(sd + '/meta.json'))
     d = tempfile.mkdtemp(prefix='sfcv_us_')
+    env = dict(os.environ, SFCV_OUT_DIR=d + '/_out')
     try:
         shutil.copytree('/repo/sfc_models', d + '/sfc_models', ignore=shutil.ignore_patterns('__pycache__'))
         subprocess.run(['git', 'init', '-q'], cwd=d)
@@ -10,19 +15,30 @@ for sd in sorted(glob.glob('/verif/seeded/*')):
         now = {}
         for i in range(1, 21):
             pid = 'C%02d' % i
-            r = subprocess.run(['/venv/bin/python', '-m', 'sfcv', 'check', pid, '--root', d], cwd='/verif', capture_output=True, text=True)
+            r = subprocess.run(['/venv/bin/python', '-m', 'sfcv', 'check', pid, '--root', d], cwd='/verif', capture_output=True, text=True, env=env)
             if r.returncode != 0:
                 rules = sorted({l.split()[1] for l in r.stdout.splitlines() if l.startswith('  ') and len(l.split()) > 1 and l.split()[1].startswith(pid + '.')})
                 now[pid] = {'rc': r.returncode, 'rules': rules}
-        if 'caught_by_at_intake' not in meta:
-            meta['caught_by_at_intake'] = meta.get('caught_by', [])
-        meta['caught_by'] = sorted(k for k, v in now.items() if v['rc'] == 1)
-        meta['caught_by_rules'] = {k: v['rules'] for k, v in now.items() if v['rc'] == 1}
-        meta['analysis_errors'] = sorted(k for k, v in now.items() if v['rc'] == 2)
-        meta['caught_by_own_property_check'] = meta['property'] in meta['caught_by']
-        meta.pop('checks', None)
+        if 'property' in meta:
+            if 'caught_by_at_intake' not in meta:
+                meta['caught_by_at_intake'] = meta.get('caught_by', [])
+            meta['caught_by'] = sorted(k for k, v in now.items() if v['rc'] == 1)
+            meta['caught_by_rules'] = {k: v['rules'] for k, v in now.items() if v['rc'] == 1}
+            meta['analysis_errors'] = sorted(k for k, v in now.items() if v['rc'] == 2)
+            meta['caught_by_own_property_check'] = meta['property'] in meta['caught_by']
+            meta.pop('checks', None)
+        else:
+            if 'non_silent_checks_at_intake' not in meta:
+                meta['non_silent_checks_at_intake'] = meta.get('non_silent_checks', {})
+            meta['non_silent_checks'] = now
         json.dump(meta, open(sd + '/meta.json', 'w'), indent=1)
-        print(os.path.basename(sd), meta['caught_by_rules'], meta['analysis_errors'])
+        return os.path.basename(sd), now
     finally:
         shutil.rmtree(d, ignore_errors=True)
-subprocess.run(['git', '-C', '/verif', 'checkout', '--', 'evidence'], capture_output=True)
+
+
+kinds = sys.argv[1:] or ['seeded', 'refactors']
+dirs = [sd for k in kinds for sd in sorted(glob.glob('/verif/%s/*' % k))]
+with ThreadPoolExecutor(12) as ex:
+    for name, now in ex.map(one, dirs):
+        print(name, {k: (v['rc'], v['rules']) for k, v in now.items()})
